@@ -54,6 +54,7 @@ inductive Atom where
   | val (v : Str)                        -- <value>v</value>
   | data (ty : XsdTy) (pat : Option Nat) -- <data type=ty> with optional pattern facet (index into the schema pattern table)
   | list                                 -- <list>…</list> (white-space separated items; content not refined)
+  | listN (ty : XsdTy) (n : Nat)         -- <list> of exactly n items of one XSD built-in type (svg:viewBox: four integers)
   | text                                 -- <text/> or no content
   | empty                                -- <empty/>
 deriving DecidableEq, Repr
